@@ -617,17 +617,42 @@ def blockid(ctx: Ctx) -> None:
                     offs = s.name
         ctx.need(offs and isinstance(N, ast.Name), f"{q}: offsets array not bound to a name")
         # (a) appended last
-        ok = False
+        ok = None
         for nid, ss in fl.sites.items():
             for s in ss:
                 v = s.value
                 if s.kind == "assign" and isinstance(v, ast.BinOp) and isinstance(v.op, ast.Add) and mentions_name(v, offs):
                     ok = isinstance(v.right, ast.Tuple) and len(v.right.elts) == 1 and isinstance(v.right.elts[0], ast.Name) and v.right.elts[0].id == offs and not mentions_name(v.left, offs)
+        if ok is None:
+            # args += (offsets,)
+            for n_ in f.own_nodes():
+                if isinstance(n_, ast.AugAssign) and isinstance(n_.op, ast.Add) and mentions_name(n_.value, offs):
+                    v = n_.value
+                    ok = isinstance(v, ast.Tuple) and len(v.elts) == 1 and isinstance(v.elts[0], ast.Name) and v.elts[0].id == offs
+        if ok is None:
+            # passed directly: g(fn, key_fn, *arrays, offsets, …) — last positional, after the
+            # starred operands
+            for call in f.own_nodes():
+                if isinstance(call, ast.Call) and any(isinstance(a, ast.Name) and a.id == offs for a in call.args) and any(isinstance(a, ast.Starred) for a in call.args):
+                    pos = [i for i, a in enumerate(call.args) if isinstance(a, ast.Name) and a.id == offs]
+                    star = [i for i, a in enumerate(call.args) if isinstance(a, ast.Starred)]
+                    ok = pos == [len(call.args) - 1] and max(star) < pos[0]
+        ctx.need(ok is not None, f"{q}: how the offsets array joins the operands is not recognised")
         ctx.ob(f, c, ok, f"{f.name}: the offsets array is appended as the last operand", sel="blockid:appended-last")
         # (b)/(c) in the wrapper
-        wraps = [d for d in repo.defs.values() if d.qual.startswith(f"{q}.func_with_block_id") and d.name == "wrap"]
-        ctx.need(wraps, f"{q}: block-id wrapper not found")
-        w = wraps[0]
+        # the wrapper: a vararg function that converts an offset, returned by a factory that is
+        # nested in f or a private module-level function f calls
+        wraps = []
+        for d_ in repo.defs.values():
+            if d_.is_func and d_.vararg and d_.parent is not None and d_.parent.is_func and repo.calls_to(d_, O2B):
+                fac = d_.parent
+                if fac.parent is f:
+                    wraps.append((d_, fac, None))
+                elif fac.parent is None and fac.module is f.module and fac.name.startswith("_"):
+                    for call_ in repo.calls_to(f, fac.qual):
+                        wraps.append((d_, fac, call_))
+        ctx.need(len(wraps) == 1, f"{q}: block-id wrapper not found")
+        w, fac, fac_call = wraps[0]
         va = w.vararg
         conv = repo.calls_to(w, O2B)
         okb = bool(conv) and va is not None
@@ -641,9 +666,16 @@ def blockid(ctx: Ctx) -> None:
                     src = s.value
             last = src is not None and f"{va}[-1]" in unparse(src)
             same_n = len(cv.args) == 2 and isinstance(cv.args[1], ast.Name) and cv.args[1].id == N.id
+            if fac_call is not None:
+                # the factory's parameter is bound to N at the call in f
+                pos_ = fac.positional_params
+                act_ = {pos_[i]: a for i, a in enumerate(fac_call.args) if i < len(pos_)}
+                act_.update({k.arg: k.value for k in fac_call.keywords if k.arg})
+                bound = act_.get(cv.args[1].id) if len(cv.args) == 2 and isinstance(cv.args[1], ast.Name) else None
+                same_n = isinstance(bound, ast.Name) and bound.id == N.id
             ctx.ob(w, cv, last, "the wrapper reads the offset from the last positional argument", sel=f"blockid:{f.name}:reads-last")
             ctx.ob(w, cv, same_n, f"the offset is converted with the same block-count tuple (`{N.id}`) the offsets array was built from" + ("" if same_n else f" — found `{unparse(cv.args[1], 30) if len(cv.args) > 1 else '?'}`"), sel=f"blockid:{f.name}:same-numblocks")
-            inner = [x for x in w.own_nodes() if isinstance(x, ast.Call) and isinstance(x.func, ast.Name) and x.func.id == "func"]
+            inner = [x for x in w.own_nodes() if isinstance(x, ast.Call) and isinstance(x.func, ast.Name) and x.func.id in fac.params]
             strip = bool(inner) and any(isinstance(a, ast.Starred) and unparse(a.value) == f"{va}[:-1]" for a in inner[0].args) and kwarg(inner[0], "block_id") is not None
             ctx.ob(w, inner[0] if inner else None, strip, "the user function receives all arguments but the last, plus block_id", sel=f"blockid:{f.name}:strips-last")
         else:
